@@ -15,9 +15,9 @@ Tie to the code (model: coq/theories/IndexMap.v, theorems: coq/props/C04.v):
   Coq (check_c04) replays both recorded histories through the model from the observed maps (as C03 does), flags every
   key that is clean (collides with nothing) in both, and demands for those: equal observed position in A and B, and
   (sims) identical draw trajectories.  Keys flagged as colliding are exempt - the property's only exception.
-Direct oracle (model-free): the implementation is its own oracle for hash(key, time): IndexMap._hash on a fresh map
-of the same size (read defensively; cross-checked against registering the key ALONE in a fresh map through the public
-API).  A shared key whose hash is neither taken before its batch nor shared with a batch-mate, in both simulations,
+Direct oracle (model-free): the implementation is its own oracle for hash(key, time): the key registered ALONE in a
+fresh map of the same size through the public API; the private helper IndexMap._hash is only a fast route, used after
+it has reproduced the public route on probe keys, and silently not used otherwise.  A shared key whose hash is neither taken before its batch nor shared with a batch-mate, in both simulations,
 must sit at that hash in both, carry the simulant that supplied it, and (sims) have equal trajectories.
 """
 import hashlib
@@ -42,9 +42,10 @@ ASSUMPTIONS = base.ASSUMPTIONS + [
 ]
 TRUSTED = [
     "C04: positions are observed through the public IndexMap.__getitem__ (sims: on the IndexMap instance seen by a "
-    "class-level wrapper around IndexMap.update installed by the harness and removed afterwards); the direct oracle "
-    "calls the private IndexMap._hash on a fresh map (skipped when absent; cross-checked through the public API); the "
-    "private IndexMap._map is read defensively for the key-association check",
+    "class-level wrapper around the public IndexMap.update installed by the harness and removed afterwards); the "
+    "direct oracle's hashes come from registering keys alone through the public API, the private IndexMap._hash being "
+    "a validated shortcut only; the private IndexMap._map is read for the key-association check only while it has "
+    "the known shape (skipped otherwise)",
 ]
 CLAIM = {
     "technique": "Coq proof over all pairs of registration histories + paired correspondence incl. whole simulations",
@@ -63,6 +64,7 @@ CLAIM = {
 FUEL = base.FUEL
 _LITS = []
 _HASH_ERRORS = []
+_SKIPPED = [0]
 
 
 # ----------------------------------------------------------------------------------------------------------------
@@ -210,30 +212,46 @@ def corpus_pairs():
 # ----------------------------------------------------------------------------------------------------------------
 # the implementation as its own hash oracle
 # ----------------------------------------------------------------------------------------------------------------
-def impl_hashes(size, st):
-    """Initial hashes of the keys of one batch by IndexMap._hash on a fresh map (None when unavailable)."""
+_HELPER = {"trusted": 0, "distrusted": 0, "absent": 0}
+
+
+def impl_hashes(size, st, qrng, nprobe=2, public_only=False):
+    """Initial hashes of the keys of one batch, the implementation being its own oracle.
+    Public route: every key registered ALONE in a fresh map of the same size at the batch's clock (IndexMap.update /
+    __getitem__).  Fast route: the private helper IndexMap._hash on a fresh map - used only after it has reproduced the
+    public route on two randomly chosen keys of this batch; a helper that is absent, renamed, or means something else
+    now is simply not used (small batches then go the public route entirely, larger ones are skipped and counted)."""
     from vivarium.framework.randomness.index_map import IndexMap
-    if not st["keys"] or any(dt.startswith("b:") for dt in st["dtypes"]):
+    n = len(st["keys"])
+    if not n or any(dt.startswith("b:") for dt in st["dtypes"]):
         return None
-    ncols = len(st["dtypes"])
-    cols = [f"k{j}" for j in range(ncols)]
-    imap = IndexMap(cols, size=size)
-    fn = getattr(imap, "_hash", None)
-    if not callable(fn):
-        # no private helper: ask the public API key by key (small batches only - one fresh map per key)
-        if len(st["keys"]) <= 12:
-            try:
-                return [singleton_position(size, st, i) for i in range(len(st["keys"]))]
-            except Exception as e:
-                _HASH_ERRORS.append(f"{type(e).__name__}: {e}"[:200])
-        return None
+    if n <= 4 or public_only:
+        return [singleton_position(size, st, i) for i in range(n)]
+    probe = sorted(qrng.sample(range(n), nprobe))
+    public = {i: singleton_position(size, st, i) for i in probe}
+    hs = None
     try:
-        idx = base.key_index(st["dtypes"], st["keys"])
-        clock, _ = base.clock_value(st["t"])
-        return [int(v) for v in fn(idx, salt=clock).tolist()]
+        cols = [f"k{j}" for j in range(len(st["dtypes"]))]
+        fn = getattr(IndexMap(cols, size=size), "_hash", None)
+        if callable(fn):
+            clock, _ = base.clock_value(st["t"])
+            out = fn(base.key_index(st["dtypes"], st["keys"]), salt=clock)
+            hs = [int(v) for v in list(out)]
+            if len(hs) != n or any(not 0 <= h < size for h in hs) or any(hs[i] != public[i] for i in probe):
+                hs = None
+                _HELPER["distrusted"] += 1
+            else:
+                _HELPER["trusted"] += 1
+        else:
+            _HELPER["absent"] += 1
     except Exception as e:
         _HASH_ERRORS.append(f"{type(e).__name__}: {e}"[:200])
-        return None
+        hs = None
+    if hs is not None:
+        return hs
+    if n <= 12:
+        return [public[i] if i in public else singleton_position(size, st, i) for i in range(n)]
+    return None
 
 
 def singleton_position(size, st, i):
@@ -248,41 +266,45 @@ def singleton_position(size, st, i):
     return int(imap[pd.Index([0], dtype="int64")][0])
 
 
-def clean_table(case, trace, qrng):
+def clean_table(case, trace, qrng, public_only=False):
     """key -> (clock spec, clean?, hash, observed final position, label) for the accepted keys of one history,
-    clean-ness judged with the implementation's own hashes relative to the observed maps.  None when _hash is absent."""
+    clean-ness judged with the implementation's own hashes relative to the observed maps.  Batches whose hashes could
+    not be obtained are left out (second result: how many)."""
     size = case["size"]
     table = {}
     prev_pos = set()
-    crossed = False
+    skipped = 0
+    validated = False
     final = {l: p for l, p in trace[-1]["obs"]} if trace else {}
     for st, tr in zip(case["steps"], trace):
         if tr["code"] == 0 and st["keys"]:
-            hs = impl_hashes(size, st)
+            hs = impl_hashes(size, st, qrng, nprobe=1 if validated else 2, public_only=public_only)
+            validated = validated or (hs is not None and len(st["keys"]) > 4)
             if hs is None:
-                return None, "IndexMap._hash unavailable"
-            if st["keys"] and not crossed and qrng.random() < 0.5:        # cross-check through the public API (once)
-                crossed = True
-                i = qrng.randrange(len(st["keys"]))
-                sp = singleton_position(size, st, i)
-                if sp != hs[i]:
-                    return None, (f"key {base.py_key(st['keys'][i])} registered alone at {st['t']} sits at {sp}, "
-                                  f"but its hash inside the batch is {hs[i]}: the hash depends on the batch")
-            for l, k, h in zip(st["labels"], st["keys"], hs):
-                clean = (h not in prev_pos) and hs.count(h) == 1
-                table[base.py_key(k)] = (json.dumps(st["t"]), clean, h, final.get(l), l)
+                skipped += 1
+            else:
+                for l, k, h in zip(st["labels"], st["keys"], hs):
+                    clean = (h not in prev_pos) and hs.count(h) == 1
+                    table[base.py_key(k)] = (json.dumps(st["t"]), clean, h, final.get(l), l)
         prev_pos = {p for _, p in tr["obs"]}
-    return table, ""
+    return table, skipped
 
 
 def pair_oracle(A, tA, B, tB, traj=None):
+    """A failure found with hashes from the private helper is re-derived through the public route alone before it is
+    reported: the helper can speed the oracle up, it can never make it fail."""
+    before = _HELPER["trusted"]
+    res = _pair_oracle(A, tA, B, tB, traj, False)
+    if not res[0] and _HELPER["trusted"] > before:
+        res = _pair_oracle(A, tA, B, tB, traj, True)
+    return res
+
+
+def _pair_oracle(A, tA, B, tB, traj, public_only):
     qrng = random.Random(A.get("qseed", 0) ^ 0x5EED)
-    ta, msg = clean_table(A, tA, qrng)
-    if ta is None:
-        return (msg.startswith("IndexMap._hash unavailable")), msg, 0, 0
-    tb, msg = clean_table(B, tB, qrng)
-    if tb is None:
-        return (msg.startswith("IndexMap._hash unavailable")), msg, 0, 0
+    ta, sa = clean_table(A, tA, qrng, public_only)
+    tb, sb = clean_table(B, tB, qrng, public_only)
+    _SKIPPED[0] += sa + sb
     shared = both_clean = 0
     for k, (t, ca, h, pa, la) in ta.items():
         if ca and pa != h:
@@ -323,8 +345,6 @@ def run_pair(case):
             "size<=50" if size <= 50 else "size<=256" if size <= 256 else "size>256",
             f"shared{'0' if shared == 0 else '1-9' if shared < 10 else '10+'}",
             f"codesA{''.join(map(str, sorted({t['code'] for t in tA})))}"]
-    if msg.startswith("IndexMap._hash unavailable"):
-        tags.append("oracle_without_hash")
     key = hashlib.sha1(json.dumps(case, sort_keys=True).encode()).hexdigest() if shared else None
     obs = {"codesA": [t["code"] for t in tA], "codesB": [t["code"] for t in tB], "shared": shared, "clean_in_both": both,
            "finalA": tA[-1]["obs"][:30] if tA else [], "finalB": tB[-1]["obs"][:30] if tB else []}
@@ -585,6 +605,9 @@ def extra(run):
             n += sz
         else:
             run.notes.append(f"a statistics file did not evaluate: {out[-300:]}")
+    run.notes.append(f"direct oracle: hashes of {_HELPER['trusted']} batches from the private helper after it reproduced the public "
+                     f"route on probe keys, {_HELPER['distrusted']} batches with a helper that did not (not used), "
+                     f"{_HELPER['absent']} without helper; {_SKIPPED[0]} batches left out of the oracle (too large for the public route)")
     if n:
         run.notes.append(f"measured by the model on a sample of {n} of this run's pairs: {tot[0]} keys are registered in both "
                          f"histories, {tot[1]} of them collide with nothing in either (compared exactly), {tot[0] - tot[1]} are "
@@ -595,11 +618,61 @@ def extra(run):
         run.hist["stats:trajectories_compared"] = tot[2]
 
 
+def shrink_pair(case):
+    """Smaller variants of a pair: shrink one history (as C03), or drop one key from both."""
+    import copy
+    for side in ("A", "B"):
+        for h in base.shrink_hist(case[side]):
+            c = copy.deepcopy(case)
+            c[side] = h
+            yield c
+    keysB = {base.py_key(k): (i, j) for i, st in enumerate(case["B"]["steps"]) for j, k in enumerate(st["keys"])}
+    for i, st in enumerate(case["A"]["steps"]):
+        for j, k in enumerate(st["keys"]):
+            if base.py_key(k) in keysB:
+                c = copy.deepcopy(case)
+                del c["A"]["steps"][i]["keys"][j]
+                del c["A"]["steps"][i]["labels"][j]
+                bi, bj = keysB[base.py_key(k)]
+                del c["B"]["steps"][bi]["keys"][bj]
+                del c["B"]["steps"][bi]["labels"][bj]
+                yield c
+
+
+def shrink_sim(case):
+    """Smaller variants of a pair of simulations: fewer steps, fewer births, smaller initial population, plain order."""
+    import copy
+    n = len(case["sched"][0])
+    if n > 1:
+        c = copy.deepcopy(case)
+        c["sched"] = [s[:-1] for s in c["sched"]]
+        yield c
+    for w in (0, 1):
+        for i, v in enumerate(case["sched"][w]):
+            if v > 0:
+                c = copy.deepcopy(case)
+                c["sched"][w][i] = v - 1
+                yield c
+                if v > 1:
+                    c = copy.deepcopy(case)
+                    c["sched"][w][i] = 0
+                    yield c
+    if min(case["pop"]) > 1 and case["pop"][0] == case["pop"][1]:
+        c = copy.deepcopy(case)
+        c["pop"] = [case["pop"][0] - 1] * 2
+        yield c
+    for w in (0, 1):
+        if case["order"][w] != "id":
+            c = copy.deepcopy(case)
+            c["order"][w] = "id"
+            yield c
+
+
 def streams(tier):
     imp = "From Viv Require Import Common IndexMap."
     return [
-        Stream(name="pairs", imports=imp, check="check_c04", gen=gen_pair, run=run_pair, corpus=corpus_pairs,
+        Stream(name="pairs", imports=imp, check="check_c04", gen=gen_pair, run=run_pair, corpus=corpus_pairs, shrink=shrink_pair,
                n_quick=60, n_thorough=500),
-        Stream(name="sims", imports=imp, check="check_c04", gen=gen_sim, run=run_sim, corpus=corpus_sims,
+        Stream(name="sims", imports=imp, check="check_c04", gen=gen_sim, run=run_sim, corpus=corpus_sims, shrink=shrink_sim,
                n_quick=18, n_thorough=200),
     ]
